@@ -128,6 +128,12 @@ def check_encoding(ctx, model, nptdms, segs, stats):
     d = compare_state(m, r)
     if d:
         dis.append(dict(what="reader model vs real: %s" % d[0], file=data.hex(), diffs=d[:4]))
+    # the spec's content of the well-formed encoding against the real read (the C01 oracle, here on this generator's files: headers
+    # that restate, switch off and re-list objects in segments with and without raw data)
+    from corr_reader import compare_content
+    d2 = compare_content(e["content"], r)
+    if d2:
+        vio.append(Violation("TdmsFile.read differs from the content the encoding denotes: %s" % d2[0], dict(kind="content", file=data.hex(), encoding=gen_files.to_line(segs), diffs=d2[:4])))
     if e.get("explicit"):
         xdata = bytes.fromhex(e["explicit"])
         rx, _ = canon.real_read(xdata, nptdms)
@@ -253,7 +259,7 @@ def run(ctx):
             feats[t] = feats.get(t, 0) + 1
         if {"hdr-matches-prev", "no-metadata", "carry-over-list", "hdr-nodata"} & f:
             nontrivial.add(gen_files.to_line(segs))
-        return len(violations) >= 5 or len(disagreements) >= 20
+        return len(violations) >= 5 or len(disagreements) >= ctx.dis_limit
 
     stop = False
     # exhaustive small scope
